@@ -86,6 +86,7 @@ fn main() {
       "C09" => Some(chain::runes::run(&ctx, "C09")),
       "C10" => Some(chain::runes::run(&ctx, "C10")),
       "C11" => Some(chain::runes::run(&ctx, "C11")),
+      "C18" => Some(server::json::run(&ctx)),
       "C19" => Some(server::content::run(&ctx)),
       "C20" => Some(wallet::builder::run(&ctx)),
       "C16" => Some(chain::nofail::run(&ctx)),
